@@ -875,6 +875,37 @@ namespace OFCore.Bld
 end OFCore.Bld
 namespace OFCore
 open Bld in
+/-- more refusals of `checkSetValue`: an integer that does not fit a C `long` (numpy's
+`OverflowError`, "too large") for an integer, date or enum variable, and a `datetime.date` given
+for a number or an enum.  (Between the `int32` and the `long` ranges numpy wraps silently: the
+model does the same, `wrap32`; see the report.) -/
+theorem C12_refuses_value_range (var : Var) :
+    (∀ i : Int, inInt64 i = false → var.vtype = .int ∨ var.vtype = .date ∨ (∃ n, var.vtype = .enum n) →
+      checkSetValue var (.int i) = .error .situation) ∧
+    (∀ r : Rat, inInt64 (truncR r) = false → var.vtype = .int ∨ (∃ n, var.vtype = .enum n) →
+      checkSetValue var (.num r) = .error .situation) ∧
+    (∀ o : Int, var.vtype = .float ∨ var.vtype = .int ∨ (∃ n, var.vtype = .enum n) →
+      checkSetValue var (.date o) = .error .situation) ∧
+    (∀ o : Int, var.vtype = .date → checkSetValue var (.date o) = .ok (.date o)) := by
+  refine ⟨?_, ?_, ?_, ?_⟩
+  · intro i hi hv
+    unfold checkSetValue
+    rcases hv with h | h | ⟨n, h⟩ <;> rw [h] <;> simp [hi]
+  · intro r hr hv
+    unfold checkSetValue
+    rcases hv with h | ⟨n, h⟩ <;> rw [h] <;> simp [hr]
+  · intro o hv
+    unfold checkSetValue
+    rcases hv with h | h | ⟨n, h⟩ <;> rw [h]
+  · intro o hv
+    unfold checkSetValue
+    rw [hv]
+
+end OFCore
+namespace OFCore.Bld
+end OFCore.Bld
+namespace OFCore
+open Bld in
 /-- **period mismatch** (the instance of `set_input` run by the driver): a variable without
 `set_input` attribute that is not eternal refuses — with the situation error the builder makes of
 `PeriodMismatchError` — a period of another unit or of more than one unit, and `ETERNITY`;
@@ -1049,6 +1080,9 @@ example : checkSetValue ⟨"birth", "person", .date, .eternity, .date 719163, .a
 example : checkSetValue exSalary (.str "abc") = .error .situation ∧ checkSetValue exSalary (.str "1 +") = .error .situation ∧
     checkSetValue exSalary (.str "2018-01-01") = .error .situation ∧ checkSetValue exSalary (.str "2*3+1.5") = .ok (.num (15/2)) := by
   decide +kernel
+example : checkSetValue ⟨"age", "person", .int, .month, .int 0, .absent⟩ (.int 9223372036854775808) = .error .situation ∧
+    checkSetValue ⟨"age", "person", .int, .month, .int 0, .absent⟩ (.int 2147483648) = .ok (.int (-2147483648)) ∧
+    checkSetValue exSalary (.date 722848) = .error .situation := by decide +kernel
 example : (parseKey (.s "2018-13")).toOption = none ∧ (parseKey (.s "month:2018")).toOption = none ∧
     (parseKey (.s "abc")).toOption = none := by decide +kernel
 example : ¬ (listedPersons exHousehold [(.s "h", .obj [(.s "parents", .arr [.str "a"]), (.s "children", .arr [.str "a"])])]).Nodup := by
